@@ -676,6 +676,14 @@ class Interp:
         if ca == 'str' and cb == 'str':
             return st.str_eq(a, b)
         if ca == 'bytes' and cb == 'bytes':
+            for x, y in ((a, b), (b, a)):
+                if isinstance(y, (bytes, bytearray)) and isinstance(x, SBytes):
+                    # against a literal: decide the length, then compare octet by octet
+                    if not st.branch(st.rope_len_term(x) == len(y), 'bytes-eq:len==%d' % len(y)):
+                        return False
+                    atoms, _ = st.take_bytes(st.expand(x.segs), len(y), 'bytes-eq')
+                    ts = [I(p) == q for p, q in zip(atoms, y)]
+                    return mk_bool(z3.And(ts)) if ts else True
             t, exact = st.rope_eq(a, b)
             if not exact:
                 raise OutOfSubset('byte-string equality with unaligned shapes')
